@@ -57,6 +57,14 @@ def exhaustive_requests(ctx, depth):
                                 ctx.violations.append({"what": f"a refused state change altered state or counts: dag {dag}, requests {seq}",
                                                        "layer": "status", "dag": dag, "requests": seq, "sig": {"clause": "refused-unchanged"}})
                                 return False
+                            if ok and not m["ok"] and m.get("err") == "badTransition":
+                                # the documented table (the one the extractor has just read) has no such arrow, and the request went through
+                                frm = STATES[S.index(before[0][oo])]
+                                ctx.violations.append({"what": f"a state change that is not an arrow of the state machine was accepted: operator {oo} "
+                                                               f"{frm} -> {STATES[tt]} (dag {dag}, requests {seq})" +
+                                                               (" -- a COMPLETED operator changed state" if frm == "C" else ""),
+                                                       "layer": "status", "dag": dag, "requests": seq, "sig": {"clause": "accepted-implies-arrow"}})
+                                return False
                             if ok != m["ok"] or ist != m["st"][0] or icnt != m["cnt"][0]:
                                 ctx.unproved.append({"kind": "correspondence", "component": "PipelineRuntimeStatus.transition",
                                                      "dag": dag, "requests": seq, "impl": [ok, ist, icnt], "model": m})
